@@ -29,6 +29,7 @@ PlainRels(Q) == { Q.rels[i].name : i \in { j \in DOMAIN Q.rels : Q.rels[j].kind 
 ColVals(Q, ty) ==
    CASE ty = "int" -> 0 .. (Q.dom - 1)
      [] ty = "opt" -> {None} \cup { Some(x) : x \in 0 .. (Q.dom - 1) }
+     [] ty \in {"max_i32", "dual_i32"} -> 0 .. (Q.dom - 1)
 RECURSIVE TuplesOver(_, _, _)
 TuplesOver(Q, cols, i) ==
    IF i > Len(cols) THEN { <<>> }
@@ -50,6 +51,7 @@ Init == /\ pi \in 1..Len(Progs)
 PushInput(r, t) ==
    /\ hist = <<>> /\ Cardinality(cur) < P.bound
    /\ r \in InputRels(P) /\ <<r, t>> \notin cur
+   /\ IsLat(P, r) => \A f \in cur : f[1] = r => Front(f[2]) # Front(t)       \* one row per lattice key
    /\ cur' = cur \cup { <<r, t>> }
    /\ UNCHANGED <<pi, hist>>
 
